@@ -102,9 +102,6 @@ def gen(rng, n):
         if d.get("END_MODE", 0) == 1:
             d.pop("NDGRAM", None)
             d.pop("HANG_OPS", None)
-        if d.get("RESET_AT", -1) >= 0 and d.get("STOPPED_WAIT", 0) == 1:
-            # stopped() after a local reset is the known class
-            d["KNOWN"] = 1
         cases.append(case_of(d))
     return cases
 
